@@ -256,6 +256,33 @@ def bounded_empirical(chk):
         if not ok:
             chk.bounded_violation('C11._compute_empirical.bounded', {'kind': kind, 'n': n, 'X': X0[:8].tolist()}, detail)
             break
+    # the concentration functions are those of ALL rows, whatever their number and order
+    from copulas.bivariate import COMPUTE_EMPIRICAL_STEPS
+    from copulas.utils import EPSILON
+    base = np.linspace(EPSILON, 1.0 - EPSILON, COMPUTE_EMPIRICAL_STEPS)
+    for n, order in ((40, 'drawn'), (3000, 'sorted'), (12000, 'sorted'), (12000, 'drawn')) if chk.tier == 'quick' else \
+            ((40, 'drawn'), (3000, 'sorted'), (12000, 'sorted'), (12000, 'drawn'), (30000, 'sorted'), (30000, 'reversed')):
+        z = rs.normal(size=(n, 2)) @ np.array([[1.0, 0.8], [0.0, 0.6]])
+        X = np.column_stack([(np.argsort(np.argsort(z[:, 0])) + 0.5) / n, (np.argsort(np.argsort(z[:, 1])) + 0.5) / n])
+        if order == 'sorted':
+            X = X[np.argsort(X[:, 0])]
+        elif order == 'reversed':
+            X = X[np.argsort(-X[:, 0])]
+        zl, L, zr, R = _compute_empirical(X)
+        left = np.array([np.mean((X[:, 0] <= b) & (X[:, 1] <= b)) for b in base])
+        right = np.array([np.mean((X[:, 0] >= b) & (X[:, 1] >= b)) for b in base])
+        want_L = [l / b ** 2 for l, b in zip(left, base) if l > 0]
+        want_zl = [b for l, b in zip(left, base) if l > 0]
+        evals += 1
+        distinct.add(('allrows', n, order))
+        if not (len(L) == len(want_L) and np.allclose(L, want_L, rtol=1e-12) and np.allclose(zl, want_zl) and
+                len(zr) == int((right > 0).sum())):
+            k0 = next((i for i, (a_, b_) in enumerate(zip(L, want_L)) if not np.isclose(a_, b_, rtol=1e-12)), 0)
+            chk.bounded_violation('C11._compute_empirical.bounded', {'kind': 'all rows', 'n': n, 'order': order},
+                                  'the lower concentration function returned for %d %s rows differs from the one of all rows '
+                                  '(first difference at step %d: %r vs %r)' % (n, order, k0, L[k0] if k0 < len(L) else None,
+                                                                               want_L[k0] if k0 < len(want_L) else None))
+            break
     chk.bounded.append({'name': 'C11._compute_empirical.bounded', 'clause': 'contract of _compute_empirical assumed by '
                         'select_copula', 'bound': '%d generated arrays (uniform, near-0, near-1, anti-monotone, boundary/ties; '
                         'n in {1,2,3,5,17,200}), seed %d' % (n_cases, chk.seed or 0), 'evaluations': evals,
